@@ -110,7 +110,10 @@ def run_case(case, ctx):
     if g == "tucker":
         order = int(rs.randint(2, 6))
         shp = gen.shape(rs, order, 1, 5 if order < 5 else 3)
-        X = make_tensor(rs, shp, cls, dt, rescale=(svd != "symeig_svd"))
+        sweeps = int(gen.choice(rs, [0, 1, 5]))
+        # symeig_svd's absolute floor only matters for the HOSVD start: once HOOI sweeps run (they use the LAPACK SVD) the units of
+        # the data must not matter any more
+        X = make_tensor(rs, shp, cls, dt, rescale=(svd != "symeig_svd" or sweeps >= 1))
         if dt == "float64" and X.dtype.kind == "f" and svd == "truncated_svd" and rs.rand() < 0.25:
             X = X.astype(np.complex128) + 1j * rs.standard_normal(shp) * (float(np.max(np.abs(X))) or 1.0)
             cls = cls + "+complex"
@@ -119,7 +122,6 @@ def run_case(case, ctx):
         rank = [int(rs.randint(1, s + 3)) for s in shp]
         if rs.rand() < 0.2:
             rank = [1] * order
-        sweeps = int(gen.choice(rs, [0, 1, 5]))
         out = D.tucker(X, rank, n_iter_max=sweeps, init="svd", svd=svd, tol=0, random_state=0)
         core, fs = out
         rr = [f.shape[1] for f in fs]
@@ -139,6 +141,12 @@ def run_case(case, ctx):
             ctx.count("clause/exact")
             if err > slack * 10:
                 viol("exact", svd, "all requested ranks cover the unfolding ranks but ||X-X^||^2/||X||^2 = %.3g" % (err / nx), desc)
+            return
+        amax = float(np.max(np.abs(Xh)))
+        if svd == "symeig_svd" and not (1e-6 < amax < 1e6):
+            # in extreme units the symeig HOSVD start is not an exact SVD (absolute floor): HOOI's quasi-optimality bound, which it
+            # inherits from an exact HOSVD start, is then not promised; the exactness clause above is
+            ctx.count("truncated_symeig_extreme_units_not_judged")
             return
         ctx.count("clause/upper-bound")
         if err > sum(tails) + slack:
